@@ -559,11 +559,15 @@ String String::concat(const char* b, int n) const
 
 void String::append(const char* b, int n)
 {
+	const char* s0 = str();
+	int off = (b >= s0 && b <= s0 + _len) ? int(b - s0) : -1; // b may point into this string
 	if(_len+n >= _size)
 		resize(_len+n);
 	else
 		_len += n;
 	char* s = str();
+	if (off >= 0)
+		b = s + off;
 	memcpy(s+_len-n, b, n);
 	s[_len] = '\0';
 }
